@@ -15,7 +15,7 @@ pub const SENDERS: [&str; 12] = [
     "airdrop",
 ];
 
-pub const WORLDS: [&str; 7] = ["fresh", "evolved", "transferred", "abandoned", "pending", "repointed", "noreg"];
+pub const WORLDS: [&str; 8] = ["fresh", "evolved", "transferred", "abandoned", "pending", "repointed", "noreg", "split"];
 
 /// the standard wiring script (also the prelude of `surface-probe`)
 pub const SETUP: &[&str] = &[
@@ -79,6 +79,17 @@ const TRANSFER: &[&str] = &[
     "disp user5 accept",
     "reg owner setowner user5",
     "reg user5 accept",
+];
+
+/// every ownable contract handed to a DIFFERENT account (hub: user5, reward: user6, dispatcher: hub's old
+/// owner keeps it, registry: user0): the owner of one contract is a stranger to the others
+const SPLIT: &[&str] = &[
+    "hub owner setowner user5",
+    "hub user5 accept",
+    "reward owner setowner user6",
+    "reward user6 accept",
+    "reg owner setowner user0",
+    "reg user0 accept",
 ];
 
 const ABANDON: &[&str] = &[
@@ -203,6 +214,11 @@ fn replay<A: Write, B: Write>(em: &mut Emitter<A, B>, world: &str, cell_note: &s
     match world {
         "transferred" => {
             for l in TRANSFER {
+                em.emit_line(l);
+            }
+        }
+        "split" => {
+            for l in SPLIT {
                 em.emit_line(l);
             }
         }
